@@ -24,13 +24,15 @@
      P:raw-cookies     an appended raw cookie is not on a line of its own, verbatim
      P:cookie-attrs    a cookie does not carry exactly the requested attributes (detail: name|attribute)
      P:unset-expired   an unset cookie is not expired for a user agent (RFC 6265 5.3)
+     P:unset-value     an unset cookie still has a value
      P:cookie-echo     the request API reads an echoed cookie as another value
-   D-clauses (model detail): D:content-length, D:cookie-order, D:unset-value, D:unset-window
+   D-clauses (model detail): D:content-length, D:cookie-order, D:unset-window,
+     D:unset-inherit   an unset cookie carries an attribute the call did not give and no earlier write left
 
-   known: deviations of the code from the property that are being tracked as findings.  With
-   known = {} the judge states the property.  A trace rejected under {} and accepted under a
-   set K is *explained* by exactly the deviations in K (that set is the finding's signature):
-     "M" a cookie name written twice keeps the attributes of the earlier write (Morsel re-use)
+   known: named deviations from the property, used for DIAGNOSIS only (all five were defects of falcon,
+   repaired since; a recurrence is a plain violation).  With known = {} the judge states the property.
+   A trace rejected under {} and accepted under a set K is *explained* by exactly the deviations in K:
+     "M" set_cookie on a name written before keeps the attributes of the earlier write (Morsel re-use)
      "Z" max_age = 0 (int/float) is dropped
      "E" an empty cookie value is echoed as two double quotes
      "Q" double quote / backslash are not escaped inside filename="..." / title="..."
@@ -41,8 +43,8 @@ CONSTANT KnownSets      \* the deviation sets every trace is judged under ({{}} 
 
 Traces == JsonDeserialize(IOEnv.TRACE_FILE)
 
-VARIABLES tid, l, known, model, raw, jar, times, verdict, dnote
-vars == <<tid, l, known, model, raw, jar, times, verdict, dnote>>
+VARIABLES tid, l, known, model, raw, jar, inh, times, verdict, dnote
+vars == <<tid, l, known, model, raw, jar, inh, times, verdict, dnote>>
 Known == known
 OnlyProperty  == {{}}
 Deviations    == {"M", "Z", "E", "Q", "C"}
@@ -55,7 +57,7 @@ T  == Traces[tid]
 Ev == T.ev[l]
 
 Init == /\ tid \in 1..Len(Traces) /\ l = 1 /\ known \in KnownSets
-        /\ model = EmptyMap /\ raw = <<>> /\ jar = EmptyMap /\ times = EmptyMap
+        /\ model = EmptyMap /\ raw = <<>> /\ jar = EmptyMap /\ inh = EmptyMap /\ times = EmptyMap
         /\ verdict = "ok" /\ dnote = ""
 
 PairsMap(ps) == [k \in {p[1] : p \in Range(ps)} |-> (CHOOSE p \in Range(ps) : p[1] = k)[2]]
@@ -81,14 +83,19 @@ NewRaw == IF Ev.op = "append" /\ IsSC(Ev.n) THEN Append(raw, Ev.v) ELSE raw
 (* ---- cookies ---- *)
 EffCA(ca) == IF "Z" \in Known /\ ca.ma.kind \in {"int", "float"} /\ ca.ma.num = 0 /\ ca.ma.frac = 0
              THEN [ca EXCEPT !.ma = [kind |-> "none", num |-> 0, frac |-> 0]] ELSE ca
+(* jar: what the last call for the name asked for (set: with "M" merged into the earlier write);
+   inh: what an unset_cookie may inherit from the writes so far; inh[k].prev: the name was written before *)
 NewJar ==
     CASE Ev.op = "set_cookie" ->
             LET new == CookieOf(EffCA(Ev.ca), T.sd) IN
             Put(jar, Ev.ck, IF "M" \in Known /\ Ev.ck \in DOMAIN jar THEN MergeSet(jar[Ev.ck], new) ELSE new)
-      [] Ev.op = "unset_cookie" ->
-            LET new == UnsetOf(Ev.ua) IN
-            Put(jar, Ev.ck, IF "M" \in Known /\ Ev.ck \in DOMAIN jar THEN MergeUnset(jar[Ev.ck], new) ELSE new)
+      [] Ev.op = "unset_cookie" -> Put(jar, Ev.ck, UnsetOf(Ev.ua))
       [] OTHER -> jar
+NewInh ==
+    CASE Ev.op = "set_cookie" -> Put(inh, Ev.ck, InhOfSet(NewJar[Ev.ck]))
+      [] Ev.op = "unset_cookie" ->
+            Put(inh, Ev.ck, InhOfUnset(IF Ev.ck \in DOMAIN inh THEN inh[Ev.ck] ELSE NoInh, Ev.ua, Ev.ck \in DOMAIN jar))
+      [] OTHER -> inh
 NewTimes == IF Ev.op = "unset_cookie" THEN Put(times, Ev.ck, <<Ev.t0, Ev.t1>>) ELSE times
 
 (* ---- the encoding law ---- *)
@@ -157,13 +164,20 @@ AttrDiff(L, c) ==
     ELSE IF L.partitioned # c.partitioned THEN "partitioned"
     ELSE IF L.other # <<>> \/ L.dup THEN "other"
     ELSE ""
-UnsetDiff(L, c) ==
-    IF L.domain # c.domain THEN "domain" ELSE IF L.path # c.path THEN "path"
-    ELSE IF L.samesite # c.samesite THEN "samesite"
-    \* with "M" the judge follows the model of the code: what the earlier write left behind must be there
-    ELSE IF "M" \in Known /\ (L.hasmaxage # c.hasmaxage \/ (c.hasmaxage /\ L.maxage # c.maxage)) THEN "max-age"
-    ELSE IF "M" \in Known /\ (L.secure # c.secure \/ L.httponly # c.httponly \/ L.partitioned # c.partitioned) THEN "flags"
+(* an unset cookie: what the call gave must be there; on a name not written before nothing else may be *)
+UnsetDiff(L, c, i) ==
+    IF L.samesite # c.samesite THEN "samesite"
+    ELSE IF c.domain # "" /\ L.domain # c.domain THEN "domain"
+    ELSE IF c.path # "" /\ L.path # c.path THEN "path"
+    ELSE IF ~i.prev /\ c.domain = "" /\ L.domain # "" THEN "domain"
+    ELSE IF ~i.prev /\ c.path = "" /\ L.path # "" THEN "path"
     ELSE ""
+(* what the call did not give is absent or inherited from the earlier write(s) *)
+InheritOK(L, c, i) ==
+    /\ (c.domain = "" => L.domain \in {"", i.domain})
+    /\ (c.path = "" => L.path \in {"", i.path})
+    /\ L.secure \in {FALSE, i.secure} /\ L.httponly \in {FALSE, i.httponly} /\ L.partitioned \in {FALSE, i.partitioned}
+    /\ L.other = <<>> /\ ~L.dup
 
 LineOf(rest, k) == rest[CHOOSE i \in 1..Len(rest) : rest[i].name = k]
 EchoOf(k) == IF \E i \in 1..Len(Ev.echo) : Ev.echo[i][1] = k
@@ -180,9 +194,9 @@ EmitVerdict ==
         ks   == DOMAIN jar
         one(k) == Cardinality({i \in 1..Len(rest) : rest[i].name = k}) = 1
         badattr == {k \in ks : one(k) /\ ~jar[k].unset /\ AttrDiff(LineOf(rest, k), jar[k]) # ""}
-        badunsa == {k \in ks : one(k) /\ jar[k].unset /\ UnsetDiff(LineOf(rest, k), jar[k]) # ""}
-        \* (with "M" a Max-Age left behind by an earlier set_cookie keeps the cookie alive: UnsetIsExpired fails in the model)
-        badexp  == {k \in ks : one(k) /\ jar[k].unset /\ ("M" \notin Known \/ UnsetIsExpired(jar[k])) /\
+        badunsa == {k \in ks : one(k) /\ jar[k].unset /\ UnsetDiff(LineOf(rest, k), jar[k], inh[k]) # ""}
+        badval  == {k \in ks : one(k) /\ jar[k].unset /\ LineOf(rest, k).value \notin {"", "\"\""}}
+        badexp  == {k \in ks : one(k) /\ jar[k].unset /\
                       LET L == LineOf(rest, k) IN ~Expired(L.hasmaxage, L.maxage, L.hasexp, L.exp, Ev.now)}
         badecho == {k \in ks : ~jar[k].unset /\ (EchoOf(k) # <<EchoWant(jar[k].value)>> \/ Echo1Of(k) # <<EchoWant(jar[k].value)>>)}
     IN
@@ -193,7 +207,8 @@ EmitVerdict ==
     ELSE IF ~st.ok THEN "P:raw-cookies|"
     ELSE IF \E k \in ks : ~one(k) THEN "P:cookie-lines|" \o (CHOOSE k \in ks : ~one(k))
     ELSE IF badattr # {} THEN LET k == CHOOSE k \in badattr : TRUE IN "P:cookie-attrs|" \o k \o "|" \o AttrDiff(LineOf(rest, k), jar[k])
-    ELSE IF badunsa # {} THEN LET k == CHOOSE k \in badunsa : TRUE IN "P:cookie-attrs|" \o k \o "|" \o UnsetDiff(LineOf(rest, k), jar[k])
+    ELSE IF badunsa # {} THEN LET k == CHOOSE k \in badunsa : TRUE IN "P:cookie-attrs|" \o k \o "|" \o UnsetDiff(LineOf(rest, k), jar[k], inh[k])
+    ELSE IF badval # {} THEN "P:unset-value|" \o (CHOOSE k \in badval : TRUE)
     ELSE IF badexp # {} THEN "P:unset-expired|" \o (CHOOSE k \in badexp : TRUE)
     ELSE IF badecho # {} THEN "P:cookie-echo|" \o (CHOOSE k \in badecho : TRUE)
     ELSE "ok"
@@ -206,7 +221,7 @@ EmitNote ==
     IN
     IF Look(got, "content-length") # Look(WantPlain, "content-length") THEN "D:content-length"
     ELSE IF \E i \in 1..Len(raw) : i > Len(Ev.lines) \/ Ev.lines[i].text # raw[i] THEN "D:cookie-order"
-    ELSE IF \E k \in un : LineOf(rest, k).value \notin {"", "\"\""} THEN "D:unset-value"
+    ELSE IF \E k \in un : ~InheritOK(LineOf(rest, k), jar[k], inh[k]) THEN "D:unset-inherit"
     ELSE IF \E k \in un : LET L == LineOf(rest, k) IN
                 \* http.cookies renders "one second ago" when the line is produced, i.e. between the call and now
                 ~L.hasexp \/ L.exp < times[k][1] - 1 \/ L.exp > Ev.now - 1 THEN "D:unset-window"
@@ -217,16 +232,16 @@ Step ==
     /\ IF Ev.op = "emit"
          THEN /\ verdict' = EmitVerdict
               /\ dnote' = (IF dnote = "" /\ verdict' = "ok" THEN EmitNote ELSE dnote)
-              /\ UNCHANGED <<model, raw, jar, times>>
+              /\ UNCHANGED <<model, raw, jar, inh, times>>
          ELSE /\ verdict' = CallVerdict
-              /\ model' = NewModel /\ raw' = NewRaw /\ jar' = NewJar /\ times' = NewTimes
+              /\ model' = NewModel /\ raw' = NewRaw /\ jar' = NewJar /\ inh' = NewInh /\ times' = NewTimes
               /\ UNCHANGED dnote
     /\ l' = l + 1 /\ UNCHANGED <<tid, known>>
 
 Done ==
     /\ l >= 1 /\ (l > Len(T.ev) \/ verdict # "ok")
     /\ PrintT(<<"VERDICT", tid, IF verdict = "ok" /\ dnote # "" THEN dnote ELSE verdict, l - 1, KStr(known)>>)
-    /\ l' = -1 /\ UNCHANGED <<tid, known, model, raw, jar, times, verdict, dnote>>
+    /\ l' = -1 /\ UNCHANGED <<tid, known, model, raw, jar, inh, times, verdict, dnote>>
 
 Next == Step \/ Done
 Spec == Init /\ [][Next]_vars
